@@ -22,7 +22,8 @@ bool isPow2(double p) {int e; return std::frexp(p, &e) == 0.5;}
 struct Op
 {
   int kind;      // 0 = update/append one value, 1 = reset/clear, 2 = burst of `count` updates,
-                 // 3 = continue on a copy-constructed object (statistics only)
+                 // 3 = continue on a copy-constructed object (statistics) / on a copy of the ring,
+                 // 4 = ring only: append(ring[k]) - the argument refers into the ring itself (count = k)
   double v;      // value (kind 0) or base (kind 2)
   double step;   // kind 2: value_k = v + step * (k % period)
   int count;     // kind 2
@@ -166,6 +167,7 @@ Outcome runStats(const Plan & p, Ctx & c)
   {Outcome o = observe("construction"); if (!o.ok) {return o;}}
   for (const Op & op : p.ops) {
     ++opNo;
+    if (op.kind == 4) {continue;}
     if (op.kind != 2) {Outcome ob = checkBystander(); if (!ob.ok) {return ob;} Outcome os = checkSibling(); if (!os.ok) {return os;}}
     if (op.kind == 3) {
       // the copy constructor must carry the whole window over: the history continues on the copy
@@ -283,6 +285,16 @@ Outcome runRing(const Plan & p, Ctx & c)
       ++c.steps;
       c.note(fmt("#%llu clear", (unsigned long long)opNo));
       Outcome o = observe("clear"); if (!o.ok) {return o;}
+      continue;
+    }
+    if (op.kind == 4) {
+      if (model.empty()) {continue;}
+      size_t k = (size_t)op.count % model.size(); double v = model[k];
+      ring.append(ring[k]);     // the value of ring[k] at the time of the call is what must be appended
+      model.push_front(v); if (model.size() > cap) {model.pop_back();}
+      ++sinceClear; ++c.steps; SIM_PROBE("append_of_a_reference_into_the_ring_itself");
+      c.note(fmt("#%llu append(ring[%zu])", (unsigned long long)opNo, k));
+      Outcome o = observe("self-append"); if (!o.ok) {return o;}
       continue;
     }
     int count = op.kind == 2 ? op.count : 1;
@@ -412,6 +424,8 @@ struct PropC16
       return p;
     }
     int maxLen = 10 * p.W;
+    int regime2 = (int)r.below(7); int switchAt = r.chance(0.4) ? (int)r.range(1, 3 * p.W + 2) : -1;
+    if (r.chance(0.3)) {regime = r.chance(0.5) ? 3 : 6; regime2 = 4;}   // large magnitudes first, near-precision values after
     int len = (int)r.range(0, r.chance(0.3) ? maxLen : std::min(maxLen, 3 * p.W + 4));
     int item = 1;
     for (int k = 0; k < len; ++k) {
@@ -421,7 +435,10 @@ struct PropC16
         continue;
       }
       if (r.chance(pCopy)) {p.ops.push_back(C()); if (!stats && r.chance(0.5)) {p.ops.push_back(C());}}
-      if (stats) {p.ops.push_back(U(drawValue(r, regime, precision, exact, k, c0, c1)));} else {
+      if (stats && switchAt > 0 && k == switchAt) {regime = regime2;}   // e.g. samples near the top of the range, then tiny ones
+      if (stats) {p.ops.push_back(U(drawValue(r, regime, precision, exact, k, c0, c1)));} else if (r.chance(0.1)) {
+        p.ops.push_back(Op {4, 0, 0, (int)r.below(16), 1});
+      } else {
         p.ops.push_back(U((double)item++));
       }
       // bias: a restart right after the window / ring has just wrapped
@@ -461,6 +478,8 @@ struct PropC16
       Json e = Json::object();
       if (o.kind == 0) {e.set("op", p.subject < 2 ? "update" : "append").set("v", o.v);} else if (o.kind == 1) {
         e.set("op", p.subject < 2 ? "reset" : "clear");
+      } else if (o.kind == 4) {
+        e.set("op", "append_own_entry").set("k", o.count);
       } else if (o.kind == 3) {
         e.set("op", p.subject < 2 ? "continue_on_copy" : "check_storage_vector");
       } else {
@@ -479,6 +498,7 @@ struct PropC16
       const std::string & k = e["op"].s();
       if (k == "update" || k == "append") {p.ops.push_back(U(e["v"].d()));} else if (k == "reset" || k == "clear") {
         p.ops.push_back(R());
+      } else if (k == "append_own_entry") {p.ops.push_back(Op {4, 0, 0, (int)e["k"].i(), 1});
       } else if (k == "continue_on_copy" || k == "check_storage_vector") {p.ops.push_back(C());
       } else {p.ops.push_back(B(e["base"].d(), e["step"].d(), (int)e["count"].i(), (int)e["period"].i()));}
     }
@@ -556,7 +576,7 @@ struct PropC16
   std::string signature(const Plan & p, const Outcome & o) const
   {
     std::string s = o.cls + "|" + subjectName(p.subject) + "|";
-    for (auto & op : p.ops) {s += op.kind == 0 ? "U" : (op.kind == 1 ? "R" : (op.kind == 3 ? "C" : "B"));}
+    for (auto & op : p.ops) {s += op.kind == 0 ? "U" : (op.kind == 1 ? "R" : (op.kind == 3 ? "C" : (op.kind == 4 ? "S" : "B")));}
     return s;
   }
   std::vector<uint64_t> sampleIndexes() const
@@ -569,7 +589,7 @@ struct PropC16
     return {"reset_before_any_data", "reset_while_window_partly_full", "reset_after_wrap_mid_window",
       "reset_exactly_at_window_boundary", "reset_twice_in_a_row", "window_wrapped_again_after_reset",
       "ten_windows_of_data", "long_run_10000_windows", "variance_scale_factor_squared_exceeds_32_bits",
-      "copy_while_window_partly_full", "copy_after_wrap", "original_checked_after_its_copy_was_fed", "ring_continue_on_copy_constructed", "ring_continue_on_copy_assigned_over_other_capacity", "clear_with_ring_index_mid_ring", "clear_of_empty_ring", "ring_capacity_not_power_of_two_wrapped",
+      "copy_while_window_partly_full", "copy_after_wrap", "original_checked_after_its_copy_was_fed", "append_of_a_reference_into_the_ring_itself", "ring_continue_on_copy_constructed", "ring_continue_on_copy_assigned_over_other_capacity", "clear_with_ring_index_mid_ring", "clear_of_empty_ring", "ring_capacity_not_power_of_two_wrapped",
       "ring_wrapped_again_after_clear"};
   }
   Json describe() const
